@@ -412,7 +412,7 @@ def handlers_case(ops, keys, rts, raise_not_found):
             exp = _ref_resolve(cm, t, HKEYS[0])
             if got is not exp:
                 return fail(lambda: 'copy resolved %r to %r after the original changed; its own mapping designates %r' % (
-                    t, getattr(got, 'tag', None), getattr(exp, 'tag', None)))
+                    t, getattr(got, 'tag', type(got).__name__), getattr(exp, 'tag', None)))
         # after every op: resolve and compare with the mirror (this is what a request does)
         t = RESOLVE_TYPES[rts[i]]
         exp = _ref_resolve(active_m, t, HKEYS[0])
@@ -486,7 +486,7 @@ def partitions(tier, seed):
                            '%s on every string of %d characters over the alphabet %r: documented errors only%s' % (
                                nm, L, ALPHA, '; equals the char-level reference when unquoted' if which == 0 else '')))
     # handlers: op kinds are the shape, keys / resolve types / raise flag symbolic
-    hist2 = [(8, 0), (8, 2), (0, 0), (8, 1), (8, 3), (0, 1), (8, 4), (8, 5), (8, 7), (8, 6), (2, 2), (5, 0), (1, 0), (3, 5)]
+    hist2 = [(8, 0), (8, 2), (0, 0), (8, 1), (8, 3), (0, 1), (8, 4), (8, 5), (8, 7), (8, 6), (2, 2), (5, 0), (1, 0), (3, 5), (4, 7), (1, 7), (0, 7)]
     hist3 = [(8, 0, 8), (0, 8, 2), (8, 7, 0), (8, 1, 0), (8, 6, 8), (8, 4, 0), (0, 0, 1), (8, 2, 3)]
     hists = hist2 + hist3 if q else hist2 + hist3 + [(a, b, c) for a in (8, 0) for b in range(8) for c in range(8)]
     seen = set()
